@@ -18,6 +18,20 @@ let handle (cf : cfg) (line : string) : string option =
       Some (Printf.sprintf "i8=%s u8=%s i16=%s u16=%s i32=%s u32=%s i64=%s u64=%s f32=%s f64=%s is=%s"
               (i i8) (i u8) (i i16) (i u16) (i i32) (i u32) (i i64) (i u64)
               (dump_f32 (as_float cf f32 v)) (dump_f64 (as_float cf f64 v)) is)
+  | ["CA1"; ty; len; d] ->
+      let v = Cmd_doc.parse_dump cf d in
+      let t = (match ty with "i32" -> i32 | "u8" -> u8 | _ -> i64) in
+      let (dst, n) = copy_array_1d cf t v (List.init (int_of_string len) (fun _ -> z_of_int 90)) in
+      Some (Printf.sprintf "%d [%s]" (int_of_nat n) (String.concat "," (List.map z_to_dec dst)))
+  | ["CA2"; shape; d] ->
+      let v = Cmd_doc.parse_dump cf d in
+      let (n1, n2) = (match String.split_on_char 'x' shape with [x; y] -> (int_of_string x, int_of_string y) | _ -> failwith "shape") in
+      let (rows, n) = copy_array_2d cf i32 v (List.init n1 (fun _ -> List.init n2 (fun _ -> z_of_int 90))) in
+      Some (Printf.sprintf "%d [%s]" (int_of_nat n)
+              (String.concat "," (List.map (fun r -> "[" ^ String.concat "," (List.map z_to_dec r) ^ "]") rows)))
+  | ["CAS"; n; d] ->
+      let v = Cmd_doc.parse_dump cf d in
+      Some ("1 " ^ hex_of_bytes (copy_string v (List.init (int_of_string n) (fun _ -> n_of_int 0x5A))))
   | ["CMP"; da; db] ->
       (* an unbound reference behaves as null in comparisons *)
       let pv d = if d = "U" then JNull else Cmd_doc.parse_dump cf d in
